@@ -7,8 +7,9 @@ from tucan.canonicalization import canonicalize_molecule
 from tucan.serialization import serialize_molecule
 from tucan.io import graph_from_tucan, TucanParserException, graph_from_molfile_text, graph_to_molfile, MolfileParserException
 
-SYM = {v["atomic_number"]: k for k, v in ELEMENT_ATTRS.items()}
-ZOF = {k: v["atomic_number"] for k, v in ELEMENT_ATTRS.items()}
+# the harness builds its molecules from its own periodic table; where the library's table differs, the pipeline shows it
+from periodic import SYM, ZOF
+ELEMENT_TABLE_DIFFERENCES = sorted(set((k, v["atomic_number"]) for k, v in ELEMENT_ATTRS.items()) ^ set(ZOF.items()))
 TRACER = "_verif_orig"
 
 
